@@ -241,8 +241,16 @@ def k_result(run, case, rng, work):
     from evo.tools import file_interface as fi
     cls = VALUE_CLASSES[rng.integers(len(VALUE_CLASSES))]
     r = Result()
-    r.info = {"title": "APE w.r.t. translation part (m)\n(π ≈ 3.14159…, ünïcödé ✓ 路径)", "label": "APE (m)",
-              "est_name": "est ü.txt", "number": int(rng.integers(10**9)), "nested": {"a": [1, 2.5, "x"]}}
+    given_info = {"title": "APE w.r.t. translation part (m)\n(π ≈ 3.14159…, ünïcödé ✓ 路径)", "label": "APE (m)",
+                  "est_name": "est ü.txt", "number": int(rng.integers(10**9)), "nested": {"a": [1, 2.5, "x"]}}
+    if rng.random() < .4:
+        # strings in decomposed form (macOS file names), compatibility characters, conjoining jamo
+        given_info["est_name"] = "re\u0301sume\u0301_\u1112\u1161\u11ab_\u212b\u2126.txt"
+        given_info["ref_name"] = "gt_A\u030a.txt"
+    if rng.random() < .5:
+        r.info = dict(given_info)
+    else:
+        r.add_info(dict(given_info))  # (the documented way to fill a result)
     for k in ("rmse", "mean", "median", "std", "min", "max", "sse"):
         v = float(values(rng, (1, ), cls)[0])
         r.stats[k] = v if rng.random() < .5 else np.float64(v)
@@ -275,7 +283,9 @@ def k_result(run, case, rng, work):
                                                                              "with trajectories" if with_traj else "without trajectories"],
              sample={"variant": label, "values": cls, "with_trajectories": with_traj,
                      "stats_head": {k: float(v) for k, v in list(r.stats.items())[:2]}})
-    run.check(back.info == r.info, "result: info identical (unicode)", case,
+    run.check(back.info == given_info and all(isinstance(v, str) and back.info[k].encode("utf-8") == v.encode("utf-8")
+                                               for k, v in given_info.items() if isinstance(v, str)),
+              "result: info identical (unicode)", case,
               "info changed in the round trip: %r" % (back.info, ), key="result:info")
     okk = set(back.stats) == set(r.stats) and all(same_bits([back.stats[k]], [float(r.stats[k])]) for k in r.stats)
     run.check(okk, "result: statistics identical float64", case,
